@@ -18,7 +18,7 @@ fn read_input(arg: Option<&String>) -> String {
     match arg {
         Some(p) if p != "-" => std::fs::read_to_string(p).unwrap_or_else(|e| {
             eprintln!("msim: cannot read {p}: {e}");
-            std::process::exit(2)
+            finish(2)
         }),
         _ => {
             let mut s = String::new();
@@ -26,6 +26,11 @@ fn read_input(arg: Option<&String>) -> String {
             s
         }
     }
+}
+
+fn finish(code: i32) -> ! {
+    c12::cleanup_private();
+    std::process::exit(code)
 }
 
 fn main() {
@@ -49,7 +54,7 @@ fn main() {
                 Ok(m) => println!("{m}"),
                 Err(e) => {
                     println!("HARNESS-ERROR seam: {e}");
-                    std::process::exit(2);
+                    finish(2);
                 }
             }
         }
@@ -64,18 +69,26 @@ fn main() {
             let _ = std::fs::remove_dir_all(&scratch);
             if let Err(e) = seam {
                 println!("HARNESS-ERROR seam: {e}");
-                std::process::exit(2);
+                finish(2);
             }
             println!("VERIF_SEED={seed} tier={tier} property={prop}");
             let code = match prop.as_str() {
-                "C12" => c12::run_check(&tier, seed, &verif).exit,
-                "C13" => c13run::run_check(&tier, seed, &verif),
+                "C12" => {
+                    let c = c12::run_check(&tier, seed, &verif).exit;
+                    c12::cleanup_private();
+                    c
+                }
+                "C13" => {
+                    let c = c13run::run_check(&tier, seed, &verif);
+                    c12::cleanup_private();
+                    c
+                }
                 _ => {
                     eprintln!("unknown property {prop}");
                     2
                 }
             };
-            std::process::exit(code);
+            finish(code);
         }
         "probe" => {
             // msim probe <n-seeds> <file.mamba>...   : one multi-file program, seeds 0..n, both annotate values
@@ -166,20 +179,21 @@ fn main() {
                     min.programs[0].features = corpus::features_of(&min.programs[0].files, &corpus::builtin_names());
                     std::fs::write(&out, serde_json::to_string_pretty(&min).unwrap()).unwrap();
                     println!("witness written: {out}: {d}; features {:?}", min.programs[0].features);
+                    c12::cleanup_private();
                     return;
                 }
             }
             println!("no divergence found up to seed {n}");
-            std::process::exit(1);
+            finish(1);
         }
         "selftest-reach" => {
             let verif = std::env::var("VERIF_DIR").unwrap_or_else(|_| "/verif".into());
-            std::process::exit(selftest::reach(&verif));
+            finish(selftest::reach(&verif));
         }
         "selftest-determinism" => {
             let seed: u64 = std::env::var("VERIF_SEED").ok().and_then(|v| v.parse().ok()).unwrap_or(20260925);
             let verif = std::env::var("VERIF_DIR").unwrap_or_else(|_| "/verif".into());
-            std::process::exit(selftest::determinism(seed, &verif));
+            finish(selftest::determinism(seed, &verif));
         }
         "replay" => {
             let path = args.get(2).cloned().unwrap_or_default();
@@ -192,11 +206,11 @@ fn main() {
                         Some(d) => {
                             println!("reproduced: {d}");
                             println!("VIOLATION property=C12 replay={path}");
-                            std::process::exit(1);
+                            finish(1);
                         }
                         None => {
                             println!("not reproduced");
-                            std::process::exit(0);
+                            finish(0);
                         }
                     }
                 }
@@ -209,23 +223,24 @@ fn main() {
                         Some(d) => {
                             println!("reproduced: {d}");
                             println!("VIOLATION property=C13 replay={path}");
-                            std::process::exit(1);
+                            finish(1);
                         }
                         None => {
                             println!("not reproduced");
-                            std::process::exit(0);
+                            finish(0);
                         }
                     }
                 }
                 _ => {
                     eprintln!("unknown property in replay file");
-                    std::process::exit(2);
+                    finish(2);
                 }
             }
         }
         _ => {
             eprintln!("usage: msim <exec-jobs|exec-step|seamcheck> ...");
-            std::process::exit(2);
+            finish(2);
         }
     }
+    c12::cleanup_private();
 }
